@@ -478,9 +478,76 @@ def compare_parse(cases, res):
                     res.disagreements.append({'stream': 'model-roundtrip', 'case': c, 'model': repr(got)[:900], 'real': repr(want)[:900]})
 
 
+def compare_parseS(cases, res):
+    """Lean pyParseS on the lines of the *regenerated* source vs ast.parse of that source, and the
+    executable form of parseS_genS: pyParseS (genModule stmts) = stmts in the model"""
+    from genshi.template.astutil import ASTCodeGenerator
+    lines, meta = [], []
+    for c in cases:
+        if c['mode'] != 'exec' or c.get('via') == 'effect':
+            continue
+        try:
+            tree = trees_of(dict(c, via='raw'))
+            if tree is None:
+                continue
+            code = ASTCodeGenerator(tree).code
+            back = ast.parse(code)
+            ls = G.tokens_of(code)
+            want = [G.to_wire(st) for st in back.body]
+            orig = [G.to_wire(st) for st in tree.body]
+        except RecursionError:
+            continue
+        except Exception:  # noqa: rejected by the generator or by the compiler
+            continue
+        if ls is None:
+            continue
+        lines.append(proto.line(Atom('C13'), Atom('parseS'), [[d, l] for d, l in ls]))
+        meta.append(('parseS', c, want))
+        lines.append(proto.line(Atom('C13'), Atom('roundtripS'), orig))
+        meta.append(('roundtripS', c, orig))
+    answers = proto.run_lines(lines)
+    for (what, c, want), ans in zip(meta, answers):
+        if ans == 'unmodelled':
+            res.count(what + ':unmodelled')
+            continue
+        try:
+            model = proto.dec(ans)
+        except Exception:  # noqa
+            model = Atom(ans)
+        stream = 'pyParseS-vs-ast.parse' if what == 'parseS' else 'model-roundtripS'
+        if model == 'raises':
+            res.count(what + ':gen-raises')
+            continue
+        res.streams[stream] = res.streams.get(stream, 0) + 1
+        if model == 'none':
+            # outside the reader: statements it does not read back (counted; `global`, `except … as`
+            # never get here because their regenerated text is not Python)
+            res.count(what + ':model-rejects')
+            outside = has_atom(want, ('Unsupported', 'Unmodelled', 'UnsupportedStmt')) or has_annotation(want)
+            if not outside:
+                res.disagreements.append({'stream': stream, 'case': c, 'model': 'none', 'real': repr(want)[:600]})
+            continue
+        got = norm_consts(model[1]) if isinstance(model, list) and len(model) == 2 else model
+        res.count(what + ':ok')
+        if got != want:
+            res.disagreements.append({'stream': stream, 'case': c, 'model': repr(got)[:900], 'real': repr(want)[:900]})
+
+
+def has_annotation(w):
+    """parameter annotations / type parameter lists: not read back by pyParseS"""
+    if isinstance(w, list):
+        if len(w) == 4 and w[0] == 'param' and isinstance(w[0], Atom) and w[2] != 'N':
+            return True
+        if w and isinstance(w[0], Atom) and w[0] in ('FunctionDef', 'ClassDef') and w[-1] == 'T':
+            return True
+        return any(has_annotation(x) for x in w)
+    return False
+
+
 def compare_model(cases, res):
     """Lean gen vs ASTCodeGenerator on the same trees, as token streams"""
     compare_parse(cases, res)
+    compare_parseS(cases, res)
     lines, meta = [], []
     for c in cases:
         try:
